@@ -154,11 +154,15 @@ class Regex(RegexReader):
         >>> regex.to_epsilon_nfa()
 
         """
+        # The automaton kept for accepts() is never handed out
+        enfa_accepts = self._enfa
         self._initialize_enfa()
         s_initial = self._set_and_get_initial_state_in_enfa()
         s_final = self._set_and_get_final_state_in_enfa()
         self._process_to_enfa(s_initial, s_final)
-        return self._enfa
+        enfa = self._enfa
+        self._enfa = enfa_accepts
+        return enfa
 
     def _set_and_get_final_state_in_enfa(self):
         s_final = self._get_next_state_enfa()
@@ -247,10 +251,13 @@ class Regex(RegexReader):
 
     def _process_to_enfa_son(self, s_from, s_to, index_son):
         # pylint: disable=protected-access
+        # The son only builds its part in the automaton of its parent
+        enfa_son = self.sons[index_son]._enfa
         self.sons[index_son]._counter = self._counter
         self.sons[index_son]._enfa = self._enfa
         self.sons[index_son]._process_to_enfa(s_from, s_to)
         self._counter = self.sons[index_son]._counter
+        self.sons[index_son]._enfa = enfa_son
 
     def get_tree_str(self, depth: int = 0) -> str:
         """ Get a string representation of the tree behind the regex
